@@ -1,10 +1,11 @@
 #!/venv/bin/python
 """tests_gen_kernels.py — self-test of the fail-closed translator harness/gen_kernels.py and of the equivalence
-proofs coq/theories/proofs/KernelsSrcOK.v.
+proofs coq/theories/proofs/KernelsSrcOK.v and ProcsSrcOK.v.
 
-(a) baseline: the translator runs on the current source tree, is deterministic, its output is the file checked in
-    as coq/theories/gen/KernelsSrc.v, and KernelsSrc.v + KernelsSrcOK.v compile (in a scratch tree; the other
-    libraries are taken from coq/theories through symlinks to their .vo files, nothing is written there).
+(a) baseline: the translator runs on the current source tree, is deterministic, its output are the files checked in
+    as coq/theories/gen/KernelsSrc.v and ProcsSrc.v, and these + KernelsSrcOK.v / ProcsSrcOK.v compile (in a scratch
+    tree; the other libraries are taken from coq/theories through symlinks to their .vo files, nothing is written
+    there).  For a mutation, a generated file that is byte-identical to the baseline's is not compiled again.
 (b) mutations: small edits of a temporary copy of the source (VERIF_REPO=<copy>); for each one the expected outcome
         proof breaks      the translator accepts the edit, the generated text changes, a theorem of KernelsSrcOK.v fails
         still proves      the edit is harmless and the unchanged proofs go through
@@ -27,7 +28,7 @@ SOL = "aquacrop/solution/"
 def source_files():
     sys.path.insert(0, os.path.join(VERIF, "harness"))
     import gen_kernels
-    return sorted({rel for rel, _ in gen_kernels.FUNCTIONS})
+    return sorted({rel for rel, _ in gen_kernels.FUNCTIONS + gen_kernels.PROCS})
 
 
 def copy_repo(dst, files):
@@ -61,27 +62,43 @@ def make_scratch_tree(scratch):
         for n in names:
             if not n.endswith(".vo"):
                 continue
-            if (reld, n) in (("gen", "KernelsSrc.vo"), ("proofs", "KernelsSrcOK.vo")):
+            if (reld, n) in (("gen", "KernelsSrc.vo"), ("proofs", "KernelsSrcOK.vo"), ("gen", "ProcsSrc.vo"), ("proofs", "ProcsSrcOK.vo")):
                 continue
             os.makedirs(os.path.join(scratch, "theories", reld), exist_ok=True)
             os.symlink(os.path.join(d, n), os.path.join(scratch, "theories", reld, n))
     os.makedirs(os.path.join(scratch, "theories", "gen"), exist_ok=True)
     os.makedirs(os.path.join(scratch, "theories", "proofs"), exist_ok=True)
     shutil.copy(os.path.join(THEORIES, "proofs", "KernelsSrcOK.v"), os.path.join(scratch, "theories", "proofs"))
+    shutil.copy(os.path.join(THEORIES, "proofs", "ProcsSrcOK.v"), os.path.join(scratch, "theories", "proofs"))
+
+
+PAIRS = [("KernelsSrc", "KernelsSrcOK"), ("ProcsSrc", "ProcsSrcOK")]
+
+
+def read_out(out):
+    return {g: open(os.path.join(out, g + ".v")).read() for g, _ in PAIRS if os.path.exists(os.path.join(out, g + ".v"))}
 
 
 INFRA = ("inconsistent assumptions", "Cannot find a physical path", "Cannot find library", "Compiled library", "bad version number")
 
 
-def coq_check(gen_file, scratch):
-    """-> ("ok", "") | ("gen", msg) KernelsSrc.v does not compile | ("proof", theorem) | ("infra", msg)"""
-    for ext in (".vo", ".vok", ".vos", ".glob"):
-        for f in ("gen/KernelsSrc", "proofs/KernelsSrcOK"):
-            p = os.path.join(scratch, "theories", f + ext)
-            if os.path.lexists(p):
-                os.remove(p)
-    shutil.copy(gen_file, os.path.join(scratch, "theories", "gen", "KernelsSrc.v"))
-    for f in ("theories/gen/KernelsSrc.v", "theories/proofs/KernelsSrcOK.v"):
+def coq_check(out, scratch, verified=None):
+    """compile the generated files of directory `out` and their proof files; a generated file that is byte-identical to
+    one already verified (the baseline) is skipped.
+    -> ("ok", "") | ("gen", msg) a generated file does not compile | ("proof", theorem) | ("infra", msg)"""
+    todo = []
+    for g, pr in PAIRS:
+        text = open(os.path.join(out, g + ".v")).read()
+        if verified is not None and verified.get(g) == text:
+            continue
+        for ext in (".vo", ".vok", ".vos", ".glob"):
+            for f in ("gen/" + g, "proofs/" + pr):
+                p = os.path.join(scratch, "theories", f + ext)
+                if os.path.lexists(p):
+                    os.remove(p)
+        shutil.copy(os.path.join(out, g + ".v"), os.path.join(scratch, "theories", "gen", g + ".v"))
+        todo += ["theories/gen/%s.v" % g, "theories/proofs/%s.v" % pr]
+    for f in todo:
         for attempt in range(3):
             r = subprocess.run(["timeout", "900", "coqc", "-Q", "theories", "AC", f], cwd=scratch, capture_output=True, text=True)
             err = (r.stderr or "") + (r.stdout if r.returncode else "")
@@ -93,14 +110,14 @@ def coq_check(gen_file, scratch):
             continue
         if any(k in err for k in INFRA) or r.returncode == 124:
             return "infra", err.strip().splitlines()[-1][:200] if err.strip() else "timeout"
-        if f.endswith("KernelsSrc.v"):
+        if "/gen/" in f:
             return "gen", " ".join(err.split())[:200]
         m = re.search(r"line (\d+)", err)
         thm = "?"
         if m:
             lines = open(os.path.join(scratch, f)).read().splitlines()
             for i in range(min(int(m.group(1)), len(lines)) - 1, -1, -1):
-                mm = re.match(r"\s*(Theorem|Lemma|Corollary)\s+(\w+)", lines[i])
+                mm = re.match(r"\s*(Theorem|Lemma|Corollary|Example)\s+(\w+)", lines[i])
                 if mm:
                     thm = mm.group(2)
                     break
@@ -116,6 +133,9 @@ def coq_check(gen_file, scratch):
 GDD, CCD, CRT, TST = SOL + "growing_degree_day.py", SOL + "cc_development.py", SOL + "cc_required_time.py", SOL + "temperature_stress.py"
 AER, WST, ADJ, UPD = SOL + "aeration_stress.py", SOL + "water_stress.py", SOL + "adjust_CCx.py", SOL + "update_CCx_CDC.py"
 CMP, RST = "aquacrop/initialize/compute_variables.py", "aquacrop/timestep/reset_initial_conditions.py"
+IRR, GST, BIO = SOL + "irrigation.py", SOL + "growth_stage.py", SOL + "biomass_accumulation.py"
+RST2 = "aquacrop/timestep/run_single_timestep.py"
+HIR, POL, PST = SOL + "HIref_current_day.py", SOL + "HIadj_pollination.py", SOL + "HIadj_post_anthesis.py"
 
 MUTATIONS = [
     ("const_gdd", "growing_degree_day, method 1: (tmax+tmin)/2 -> /3",
@@ -196,6 +216,66 @@ MUTATIONS = [
      lambda r: edit(r, CMP, "    for i in range(param_struct.NCrops):\n        crop = param_struct.CropList[i]\n        # Determine initial",
                     "    for i in range(2):\n        crop = param_struct.CropList[i]\n        # Determine initial"),
      "translator error", r"aquacrop/initialize/compute_variables\.py:\d+: unsupported second execution of `crop = \.\.\.`"),
+    # ---- phase 2: process functions (ProcsSrc.v / ProcsSrcOK.v)
+    ("irr_cap_cmp", "irrigation: seasonal cap test `IrrCum + Irr > MaxIrrSeason` -> `>=`",
+     lambda r: edit(r, IRR, "if NewCond_IrrCum + Irr > IrrMngt_MaxIrrSeason:", "if NewCond_IrrCum + Irr >= IrrMngt_MaxIrrSeason:"),
+     "proof breaks", "irrigation_src_ok"),
+    ("irr_drop_min", "irrigation, soil-moisture method: `Irr = min(MaxIrr, IrrReq)` -> `Irr = IrrReq` (daily cap dropped)",
+     lambda r: edit(r, IRR, "                Irr = min(IrrMngt_MaxIrr, IrrReq)\n                # Irr = 15",
+                    "                Irr = IrrReq\n                # Irr = 15"),
+     "proof breaks", "irrigation_src_ok"),
+    ("irr_const", "irrigation, interval method: efficiency adjustment `+ 100) / 100` -> `+ 100) / 10`",
+     lambda r: edit(r, IRR, "                EffAdj = ((100 - IrrMngt_AppEff) + 100) / 100\n                IrrReq = IrrReq * EffAdj\n                # Limit irrigation to maximum depth\n                Irr = min(IrrMngt_MaxIrr, IrrReq)\n            else:\n                # No irrigation",
+                    "                EffAdj = ((100 - IrrMngt_AppEff) + 100) / 10\n                IrrReq = IrrReq * EffAdj\n                # Limit irrigation to maximum depth\n                Irr = min(IrrMngt_MaxIrr, IrrReq)\n            else:\n                # No irrigation"),
+     "proof breaks", "irrigation_src_ok"),
+    ("irr_drop_assert", "irrigation, schedule method: `assert Irr >= 0` removed (a negative scheduled depth no longer raises)",
+     lambda r: edit(r, IRR, "            assert Irr >= 0\n", "            pass\n"),
+     "proof breaks", "irrigation_src_ok"),
+    ("irr_rename", "irrigation: local WCadj renamed WCadjust everywhere (harmless)",
+     lambda r: edit(r, IRR, "WCadj", "WCadjust", count=None),
+     "still proves", None),
+    ("irr_ext_args", "irrigation: root_zone_water called with Crop.Zmin in place of Crop.Aer (pinned argument list)",
+     lambda r: edit(r, IRR, "            float(Crop.Zmin),\n            Crop.Aer,\n", "            float(Crop.Zmin),\n            Crop.Zmin,\n"),
+     "proof breaks", "irrigation_src_calls_pinned"),
+    ("irr_round", "irrigation: `int(NewCond_GrowthStage)` -> `round(NewCond_Epot)` (rounding not listed in ROUND_OPS)",
+     lambda r: edit(r, IRR, "index = int(NewCond_GrowthStage) - 1", "index = round(NewCond_Epot) - 1"),
+     "translator error", r"aquacrop/solution/irrigation\.py:\d+: unsupported round\(\.\.\.\) that is not listed in ROUND_OPS"),
+    ("irr_float_index", "irrigation: schedule indexed with a float",
+     lambda r: edit(r, IRR, "Irr = IrrMngt_Schedule[idx]", "Irr = IrrMngt_Schedule[Rain]"),
+     "translator error", r"aquacrop/solution/irrigation\.py:\d+: unsupported list index that is not an integer"),
+    ("gs_cmp", "growth_stage: `elif tAdj <= Crop.MaxCanopy` -> `<`",
+     lambda r: edit(r, GST, "elif tAdj <= Crop.MaxCanopy:", "elif tAdj < Crop.MaxCanopy:"),
+     "proof breaks", "growth_stage_src_ok"),
+    ("gs_other_object", "growth_stage: a store into an attribute of Crop while NewCond is returned",
+     lambda r: edit(r, GST, "            NewCond.growth_stage = 2", "            Crop.MaxCanopy = 2"),
+     "translator error", r"aquacrop/solution/growth_stage\.py:\d+: unsupported return of InitCond while a slot of another object"),
+    ("bio_const", "biomass_accumulation: fswitch = PctLagPhase / 100 -> / 10",
+     lambda r: edit(r, BIO, "fswitch = NewCond_PctLagPhase / 100", "fswitch = NewCond_PctLagPhase / 10"),
+     "proof breaks", "biomass_accumulation_src_ok"),
+    ("bio_drop_nan", "biomass_accumulation: the `if np.isnan(dB) == True: dB = 0` guard removed",
+     lambda r: edit(r, BIO, "        if np.isnan(dB) == True:\n            dB = 0\n", ""),
+     "proof breaks", "biomass_accumulation_src_ok"),
+    ("hiref_const", "HIref_current_day: 0.9799 -> 0.98",
+     lambda r: edit(r, HIR, "0.9799", "0.98"),
+     "proof breaks", "HIref_current_day_src_ok"),
+    ("poll_min_order", "HIadj_pollination: min([Ksw.pol, Kst.PolC, Kst.PolH]) -> min([Kst.PolC, Ksw.pol, Kst.PolH])",
+     lambda r: edit(r, POL, "min([Ksw.pol, Kst.PolC, Kst.PolH])", "min([Kst.PolC, Ksw.pol, Kst.PolH])"),
+     "proof breaks", "HIadj_pollination_src_ok"),
+    ("post_reorder", "HIadj_post_anthesis: the two assignments `tmax2 = ...` / `dap = ...` swapped (harmless)",
+     lambda r: edit(r, PST, "    tmax2 = Crop.YldFormCD\n    dap = NewCond_DAP - InitCond_DelayedCDs\n",
+                    "    dap = NewCond_DAP - InitCond_DelayedCDs\n    tmax2 = Crop.YldFormCD\n"),
+     "still proves", None),
+    ("post_guard", "HIadj_post_anthesis: `NewCond_Fpre > 0.99` -> `>= 0.99` in the first adjustment",
+     lambda r: edit(r, PST, "        and (NewCond_Fpre > 0.99)\n        and (NewCond_CC > 0.001)\n        and (Crop.a_HI > 0)",
+                    "        and (NewCond_Fpre >= 0.99)\n        and (NewCond_CC > 0.001)\n        and (Crop.a_HI > 0)"),
+     "proof breaks", "HIadj_post_anthesis_src_ok"),
+    ("yld_const", "run_single_timestep, yield block: DryYield = (biomass / 100) * HIadj -> / 1000",
+     lambda r: edit(r, RST2, "NewCond.DryYield = (NewCond.biomass / 100)", "NewCond.DryYield = (NewCond.biomass / 1000)"),
+     "proof breaks", "yield_block_src_ok"),
+    ("yld_elif_to_else", "run_single_timestep, yield block: `elif growing_season is False` -> `else` (harmless for a bool, but the "
+                         "incoming DryYield/FreshYield are no longer read: the generated signature loses two parameters)",
+     lambda r: edit(r, RST2, "    elif growing_season is False:\n        # Crop yield_ is zero", "    else:\n        # Crop yield_ is zero"),
+     "proof breaks", "yield_block_src_ok"),
     ("syntax_error", "water_stress: source no longer parses",
      lambda r: edit(r, WST, "    Ksw_Exp = Ks[0]\n", "    Ksw_Exp = Ks[0\n"),
      "translator error", r"aquacrop/solution/water_stress\.py:\d+: unsupported syntax"),
@@ -220,19 +300,20 @@ def main():
     out0, out0b = os.path.join(BASE, "out_base"), os.path.join(BASE, "out_base2")
     rc, msg = run_gen(repo0, out0)
     rc2, _ = run_gen(repo0, out0b)
-    base_text = open(os.path.join(out0, "KernelsSrc.v")).read() if rc == 0 else None
-    good = rc == 0 and rc2 == 0 and base_text == open(os.path.join(out0b, "KernelsSrc.v")).read()
+    base = read_out(out0) if rc == 0 else None
+    base_text = "".join(base[g] for g, _ in PAIRS) if base else None
+    good = rc == 0 and rc2 == 0 and base == read_out(out0b) and len(base) == len(PAIRS)
     rows.append(("baseline/translate", "translator on the unmodified source, twice", "exit 0, identical output",
                  "exit %d/%d%s" % (rc, rc2, "" if good else " " + msg[:120]), good))
     ok_all &= good
     if base_text is not None:
-        checked_in = os.path.join(THEORIES, "gen", "KernelsSrc.v")
-        same = os.path.exists(checked_in) and open(checked_in).read() == base_text
-        rows.append(("baseline/current", "coq/theories/gen/KernelsSrc.v is what the translator produces now", "identical",
+        same = all(os.path.exists(os.path.join(THEORIES, "gen", g + ".v"))
+                   and open(os.path.join(THEORIES, "gen", g + ".v")).read() == base[g] for g, _ in PAIRS)
+        rows.append(("baseline/current", "coq/theories/gen/{KernelsSrc,ProcsSrc}.v are what the translator produces now", "identical",
                      "identical" if same else "DIFFERENT (regenerate)", same))
         ok_all &= same
-        kind, detail = coq_check(os.path.join(out0, "KernelsSrc.v"), scratch)
-        rows.append(("baseline/coq", "KernelsSrc.v and KernelsSrcOK.v compile", "still proves",
+        kind, detail = coq_check(out0, scratch)
+        rows.append(("baseline/coq", "KernelsSrc.v, KernelsSrcOK.v, ProcsSrc.v and ProcsSrcOK.v compile", "still proves",
                      {"ok": "still proves", "gen": "generated file rejected: " + detail, "proof": "proof breaks at " + detail,
                       "infra": "INFRASTRUCTURE: " + detail}[kind], kind == "ok"))
         ok_all &= kind == "ok"
@@ -246,7 +327,7 @@ def main():
         copy_repo(repo, files)
         apply(repo)
         rc, msg = run_gen(repo, out)
-        wrote = os.path.exists(os.path.join(out, "KernelsSrc.v"))
+        wrote = bool(read_out(out))
         if rc != 0:
             m = re.search(r"TRANSLATOR-ERROR: (.*)", msg)
             got = "translator error"
@@ -256,10 +337,10 @@ def main():
             if wrote:
                 shown += " [BUT a file was written]"
         else:
-            text = open(os.path.join(out, "KernelsSrc.v")).read()
+            text = "".join(read_out(out)[g] for g, _ in PAIRS)
             strip = lambda s: re.sub(r"\(\*.*?\*\)", "", s, flags=re.S)
             changed = strip(text) != strip(base_text or "")
-            kind, d = coq_check(os.path.join(out, "KernelsSrc.v"), scratch)
+            kind, d = coq_check(out, scratch, base)
             if kind == "ok":
                 got, shown = "still proves", "still proves (generated definitions %s)" % ("changed" if changed else "unchanged")
                 good = expected == "still proves"
